@@ -498,7 +498,7 @@ func (s *v4sys) Fingerprint() string {
 	}
 	sort.Strings(dl)
 	fmt.Fprintf(&sb, "|declined=%v|tick=%d|ticked=%v", dl, s.d.NextTick.Sub(now).Milliseconds(), s.lastTickRel(now))
-	return sb.String()
+	return digest(sb.String())
 }
 
 // lastTickRel: for each lease, whether a tick happened after its expiry is what matters; encode
